@@ -207,7 +207,19 @@ structure Reader where
   expansions : List Nat := []
   /-- number of line-macro expansions around this reader (the content of a container block has a reader of its own) -/
   depth : Nat := 0
+  /-- number of container blocks around this reader -/
+  level : Nat := 0
 deriving Repr, DecidableEq, Inhabited
+
+/-- What `document.render` is told about where its source stands: the numbers of line-macro expansions (`nesting`)
+    and of container blocks (`level`) around it. -/
+structure Depth where
+  nesting : Nat := 0
+  level : Nat := 0
+deriving Repr, DecidableEq, Inhabited
+
+/-- a top-level document -/
+instance : OfNat Depth 0 := ⟨{}⟩
 
 /-- The writer buffer, most recent chunk first. -/
 structure Writer where
